@@ -65,11 +65,11 @@ type source struct {
 	notFound time.Duration
 
 	// logical-time quiescence: honest latest answers since the last commit
-	honestLatest atomic.Int64
-	hits         map[string]int
+	honestLatest  atomic.Int64
+	hits          map[string]int
 	servedHeights map[uint64]bool
-	inflight     int // BlockByNumber calls currently being answered
-	maxInflight  int
+	inflight      int // BlockByNumber calls currently being answered
+	maxInflight   int
 }
 
 type handedOut struct {
